@@ -1,5 +1,5 @@
 (* Extraction of the executable models. ExtrOcamlBasic only: Z/positive/nat stay inductive. *)
-From MV Require Import Base.MvBytes Num.NumModel Json.JsonModel Json.JsonSpec Dispatch.DispatchModel DataUri.DataUriModel Stream.StreamModel Buf.BufModel.
+From MV Require Import Base.MvBytes Num.NumModel Json.JsonModel Json.JsonSpec Dispatch.DispatchModel DataUri.DataUriModel Stream.StreamModel Buf.BufModel Cli.CliModel Cli.ConcatModel.
 Require Extraction.
 Require Import ExtrOcamlBasic.
 Extraction Language OCaml.
@@ -8,4 +8,5 @@ Separate Extraction number0 decimal0 valid_number valid_decimal
   reg_step reg_init served match_q mediatype
   needs_escape b64_encode datauri_encode mediatype_min
   entry_minify entry_reader entry_writer entry_bytes
-  tb_init peek shift.
+  tb_init peek shift
+  ops_of cr_init cread read_fuel.
